@@ -265,7 +265,7 @@ def is_first_or_second_after_mdate(k, md):
 
 
 contract(
-    M + "enterId", props=["C01", "C07", "C08"],
+    M + "enterId", props=["C01", "C07", "C08"], timeout_ms=60000,
     args={"self": SELF(), "ctx": CTX(T.str())},
     requires={"token-shape": "fullmatch(ID_TOKEN_RE, ctx.getText())"},
     frame=True,
